@@ -268,8 +268,15 @@ func runConc(toks []string) (string, string) {
 		noteHang()
 		return "TIMEOUT", "FAIL:deadlock:a call to Write, Rotate or Close did not return within 10s"
 	}
+	// the files are inspected as the scripted calls left them: when one of them was a Close that
+	// returned, no further Close is issued (a single Close must finalise everything)
 	closeDone := make(chan struct{})
-	go func() { w.Close(); close(closeDone) }()
+	go func() {
+		if atomic.LoadInt32(&closeReturned) == 0 {
+			w.Close()
+		}
+		close(closeDone)
+	}()
 	select {
 	case <-closeDone:
 	case <-timeAfter(10):
@@ -291,8 +298,13 @@ func runConc(toks []string) (string, string) {
 		noteHang()
 		return "TIMEOUT", "FAIL:deadlock:Write after Close blocks"
 	}
+	// failures of different sentences can coincide (a file left in progress also means that the
+	// records acknowledged for it are not at the reported file): all kinds are reported, "a+b"
+	var extraKinds []string
+	extraDetail := ""
 	if openAtClose != "" {
-		return "open-at-close", "FAIL:close-early:Close returned while " + openAtClose + " still carried the in-progress suffix"
+		extraKinds = append(extraKinds, "close-early")
+		extraDetail = "Close returned while " + openAtClose + " still carried the in-progress suffix; "
 	}
 	// ---- read everything back ----
 	ents, _ := os.ReadDir(out)
@@ -310,7 +322,11 @@ func runConc(toks []string) (string, string) {
 	total := 0
 	for _, nme := range names {
 		if strings.HasSuffix(nme, ".open") {
-			return "open-left", "FAIL:close-early:" + nme + " left in progress after Close"
+			if len(extraKinds) == 0 {
+				extraKinds = append(extraKinds, "close-early")
+			}
+			extraDetail += nme + " left in progress after Close; "
+			continue
 		}
 		rd, err := gowarc.NewWarcFileReader(filepath.Join(out, nme), 0, gowarc.WithStrictValidation(), gowarc.WithBufferTmpDir(tmp))
 		if err != nil {
@@ -350,6 +366,9 @@ func runConc(toks []string) (string, string) {
 		}
 		rd.Close()
 	}
+	mk := func(kind, detail string) string {
+		return "FAIL:" + strings.Join(append(append([]string{}, extraKinds...), kind), "+") + ":" + extraDetail + detail
+	}
 	obs := fmt.Sprintf("files=%d;records=%d;calls=%d;hist=%s", len(names), total, len(calls), strings.Join(hist, ","))
 	for _, cl := range calls {
 		if cl.kind != "w" {
@@ -358,13 +377,13 @@ func runConc(toks []string) (string, string) {
 		if cl.nilResp {
 			for _, id := range cl.ids {
 				if len(where[id]) > 0 {
-					return obs, "FAIL:nil-but-written:Write returned no responses but record " + id + " was written to " + where[id][0].file
+					return obs, mk("nil-but-written", "Write returned no responses but record "+id+" was written to "+where[id][0].file)
 				}
 			}
 			continue
 		}
 		if len(cl.resps) != len(cl.ids) {
-			return obs, fmt.Sprintf("FAIL:lost-or-duplicated:%d responses for %d records", len(cl.resps), len(cl.ids))
+			return obs, mk("lost-or-duplicated", fmt.Sprintf("%d responses for %d records", len(cl.resps), len(cl.ids)))
 		}
 		var places []place
 		for x, rs := range cl.resps {
@@ -373,21 +392,24 @@ func runConc(toks []string) (string, string) {
 			}
 			ps := where[cl.ids[x]]
 			if len(ps) != 1 {
-				return obs, fmt.Sprintf("FAIL:lost-or-duplicated:record %s is present %d times", cl.ids[x], len(ps))
+				return obs, mk("lost-or-duplicated", fmt.Sprintf("record %s is present %d times", cl.ids[x], len(ps)))
 			}
 			if ps[0].file != rs.FileName || ps[0].off != rs.FileOffset {
-				return obs, fmt.Sprintf("FAIL:misplaced:record %s reported at %s@%d is at %s@%d", cl.ids[x], rs.FileName, rs.FileOffset, ps[0].file, ps[0].off)
+				return obs, mk("misplaced", fmt.Sprintf("record %s reported at %s@%d is at %s@%d", cl.ids[x], rs.FileName, rs.FileOffset, ps[0].file, ps[0].off))
 			}
 			places = append(places, ps[0])
 		}
 		for x := 1; x < len(places); x++ {
 			if places[x].file != places[x-1].file {
-				return obs, fmt.Sprintf("FAIL:batch-split-across-files:the records of one Write call are in %s and %s", places[x-1].file, places[x].file)
+				return obs, mk("batch-split-across-files", fmt.Sprintf("the records of one Write call are in %s and %s", places[x-1].file, places[x].file))
 			}
 			if places[x].idx != places[x-1].idx+1 {
-				return obs, "FAIL:batch-not-contiguous:the records of one Write call are not adjacent in " + places[x].file
+				return obs, mk("batch-not-contiguous", "the records of one Write call are not adjacent in "+places[x].file)
 			}
 		}
+	}
+	if len(extraKinds) > 0 {
+		return obs, "FAIL:" + strings.Join(extraKinds, "+") + ":" + extraDetail
 	}
 	return obs, "OK"
 }
